@@ -341,6 +341,19 @@ func c03CatSingle(thorough bool) *c03Cat {
 	rec("stepin", c3sel(c3f("a", "b", c3i(0)), nil, t1),
 		c3sel(c3f("a", "b", c3plus(c3c("d"), c3i(1))), c3and(dlt(2), relm.In{E: c3c("a"), Q: c3sel(c3f("b"), nil, t1)}), c3ref("r")),
 		[]string{"a", "b", "d"}, c3sel(c3f("d", "a"), c3cmp(">", c3c("d"), c3i(0)), c3ref("r")))
+	// UNION (without ALL) as the recursion: an anchor with equal rows, steps that produce rows already known
+	recd := func(id string, base, step *relm.Query, cols []string, outer *relm.Query) {
+		cat.add("R/"+id, "recursive", c3with(outer, &relm.CTE{Name: "r", Cols: cols, Recursive: true, Q: &relm.Query{Body: &relm.UnionAll{L: base.Body, R: step.Body, Distinct: true}}}))
+	}
+	recd("distinct-anchor-with-equal-rows", c3sel(c3f("b", c3i(0)), nil, t1),
+		c3sel(c3f("b", c3plus(c3c("d"), c3i(1))), dlt(2), c3ref("r")),
+		[]string{"b", "d"}, c3sel(c3star(), nil, c3ref("r")))
+	recd("distinct-reach", c3sel(c3f("a", "b", c3i(0)), relm.IsNull{E: c3c("a"), Neg: true}, t1),
+		c3sel(c3f("t1.a", "t1.b", c3plus(c3c("r.d"), c3i(1))), dlt(3), c3join("INNER", c3ref("r"), t1, c3eq(c3c("t1.a"), c3c("r.b")))),
+		[]string{"a", "b", "d"}, c3sel(c3f("a", "b"), nil, c3ref("r")))
+	recd("distinct-step-repeats-known-rows", c3sel(c3f("a", c3i(0)), nil, t1),
+		c3sel(c3f("a", c3i(1)), dlt(1), c3ref("r")),
+		[]string{"a", "d"}, c3sel(c3star(), nil, c3ref("r")))
 	rec("alias", c3sel(c3f("a", c3i(0)), nil, t1),
 		c3sel(c3f("q.a", c3plus(c3c("q.d"), c3i(1))), c3cmp("<", c3c("q.d"), c3i(2)), c3refAs("r", "q")),
 		[]string{"a", "d"}, c3sel(c3star(), relm.IsNull{E: c3c("a")}, c3ref("r")))
